@@ -140,7 +140,7 @@ def make_input(progs, specs, groups):
                                                       for m in g["members"]]} for g in groups]}
 
 
-def predict(workdir, progs, specs, groups, timeout=3600):
+def predict(workdir, progs, specs, groups, timeout=4 * 3600):
     with open(os.path.join(workdir, "groups.json"), "w") as f:
         json.dump(make_input(progs, specs, groups), f)
     res = core.run_tlc(workdir, "RefGroups", timeout=timeout)
